@@ -141,6 +141,11 @@ def claims(suite, state, nsigners, nmsgs):
                 out.append(("substitute-message[%d]->%d" % (i, m2), base_p, base_m[:i] + [m2] + base_m[i + 1:], "honest"))
         for bl in ("identity", "non-subgroup", "malformed"):
             out.append(("bad-key[%d]:%s" % (i, bl), base_p[:i] + [("bad", bl)] + base_p[i + 1:], base_m, "honest"))
+    # an extra (invalid key, fresh message) pair appended to an otherwise honest claim: an
+    # identity key contributes the factor 1 to the pairing product
+    spare = [m for m in range(nmsgs) if m not in base_m]
+    for bl in ("identity", "non-subgroup"):
+        out.append(("append-bad-pair:%s" % bl, base_p + [("bad", bl)], base_m + [spare[0] if spare else 0], "honest"))
     for i, j in itertools.combinations(range(n), 2):
         mm = list(base_m)
         mm[i], mm[j] = mm[j], mm[i]
@@ -218,6 +223,8 @@ def fast_claims(state, nsigners):
         rest = list(sset)
         rest.remove(4)
         out.append(("split-coincident-signer", [("k", 0), ("k", 1)] + [("k", x) for x in rest], [mi], "honest"))
+    for bl in ("identity", "non-subgroup"):
+        out.append(("append-bad-key:%s" % bl, base_p + [("bad", bl)], [mi], "honest"))
     out.append(("other-message", base_p, [(mi + 1) % 2], "honest"))
     if n >= 2:
         out.append(("reorder-keys", base_p[::-1], [mi], "honest"))
@@ -358,6 +365,53 @@ def task_verify(a, env):
     return r
 
 
+def cross_case(keys, state, sa, sb):
+    """one process, one history: the honest claim in suite A, then in suite B, then A's aggregate
+    presented to B and B's to A, then A again - every verdict against the model"""
+    out = []
+    base_p = [("k", si) for (si, _m) in state]
+    pkb = [pk_bytes(keys, p) for p in base_p]
+    msgs = [MSG[mi] for (_s, mi) in state]
+    agg = {s: MB.g2_bytes(state_point(s, keys, state)) for s in (sa, sb)}
+    vec = {s: state_vec(s, keys, state) for s in (sa, sb)}
+    for (vs, ags) in ((sa, sa), (sb, sb), (sb, sa), (sa, sb), (sa, sa), (sb, sb)):
+        exp = model_aggverify(vs, keys, base_p, msgs, vec[ags])
+        got = BL.verdict(BL.suite_cls(vs).AggregateVerify, pkb, msgs, agg[ags])
+        out.append(("%s-verifies-%s-aggregate" % (vs, ags), exp, got))
+    return out
+
+
+def task_cross(a, env):
+    r = R("AggregateVerify:cross-suite-histories")
+    keys = signer_keys(env)
+    state = [tuple(x) for x in a["state"]]
+    for (sa, sb) in a["pairs"]:
+        res = cross_case(keys, state, sa, sb)
+        r.ev += len(res)
+        r.transitions += len(res)
+        r.dk.add((sa, sb, tuple(state)))
+        for i, (lbl, exp, got) in enumerate(res):
+            if exp != got:
+                r.viol("C03:AggregateVerify:cross-suite:%s" % ("accepts" if got is True else "rejects-valid" if got is False else "not-a-bool"),
+                       ME + ":replay_cross", {"state": state, "sa": sa, "sb": sb, "seed": env["seed"]}, exp, got,
+                       note="step %d: %s" % (i, lbl))
+                break
+    r.states = 1
+    r.traces = len(a["pairs"])
+    r.sample({"state": a["state"], "history": ["A verifies A", "B verifies B", "B verifies A's aggregate",
+                                               "A verifies B's aggregate", "A again", "B again"], "suite_pairs": a["pairs"][:2]})
+    return r
+
+
+def replay_cross(a):
+    env = {"seed": a["seed"], "pid": "C03", "tier": "quick"}
+    res = cross_case(signer_keys(env), [tuple(x) for x in a["state"]], a["sa"], a["sb"])
+    for i, (lbl, exp, got) in enumerate(res):
+        if exp != got:
+            return {"step": i, "call": lbl, "expected": exp, "observed": got}
+    return None
+
+
 def replay_verify(a):
     env = {"seed": a["seed"], "pid": "C03", "tier": "quick"}
     state = [tuple(x) for x in a["state"]]
@@ -438,6 +492,10 @@ def run(ctx):
         ns, nm = (5, 2) if q else (5, 3)
         pool = [(s, m) for s in range(2 if q else 3) for m in range(2 if q else 3)]
         states = multisets(pool, 2) + ([[(2, 0)], [(2, 1)], [(0, 0), (2, 1)]] if q and full else [])
+        if q and not full:
+            # the other two suites: all singletons and the four pair shapes (distinct / same signer x
+            # distinct / same message); the basic suite keeps the complete size <= 2 exploration
+            states = multisets(pool, 1) + [[(0, 0), (1, 1)], [(0, 0), (1, 0)], [(0, 0), (0, 1)], [(0, 0), (0, 0)]]
         # canonical size-3 shapes (+ coincidence signers 3: same key as 0, 4: k0 + k1)
         shapes3 = [[(0, 0), (1, 1), (2, 0)], [(0, 0), (0, 1), (1, 0)], [(0, 0), (0, 0), (1, 1)], [(0, 0), (1, 0), (2, 0)],
                    [(0, 0), (3, 1), (1, 0)], [(0, 0), (1, 0), (4, 1)], [(0, 0), (3, 0), (1, 1)], [(4, 0), (0, 1), (1, 1)]]
@@ -469,6 +527,10 @@ def run(ctx):
                                      "lo": lo, "step": step, "sample": lo == 0 and st is fstates[1]}))
     nst += len(fstates)
     tasks.append(("refuse", {}))
+    sp = [(x, y) for x in BL.SUITES for y in BL.SUITES if x != y]
+    for st in ([[(0, 0), (1, 1)]] if q else [[(0, 0), (1, 1)], [(0, 0)], [(0, 1), (1, 0), (2, 2)]]):
+        for i in range(0, len(sp), 2):
+            tasks.append(("cross", {"state": st, "pairs": sp[i:i + 2]}))
     if not q:
         for suite in BL.SUITES:
             for n in (4, 8, 16, 32):
